@@ -256,6 +256,19 @@ func runC08(r *mc.Run) {
 		}
 	}
 	mt("equal-high", big, append([]byte(nil), big[48:64]...))
+	// every pair of components moved in opposite directions (a comparison that is not component-wise,
+	// e.g. lexicographic or summed, is only exposed by two differing positions)
+	for i := 0; i < 16; i++ {
+		for j := 0; j < 16; j++ {
+			if i == j {
+				continue
+			}
+			v := append([]byte(nil), big[48:64]...)
+			v[i]--
+			v[j]++
+			mt(fmt.Sprintf("comp%d-1,comp%d+1", i, j), big, v)
+		}
+	}
 	// 6. every single XFAM / TD_ATTRIBUTES bit, from the baseline and from all-zero (+fixed1)
 	for _, f := range []struct {
 		name string
